@@ -1,7 +1,8 @@
 """C16 - ulist, dictattr and Dict implement ordered set / key algebra without side effects.
 
 Protocol (model name c16, see lean/PygModel/USetDriver.lean):
-  ulist histories over handles: u.new / u.copy / u.add / u.and / u.sub (element or list operand) / u.addh / u.andh / u.subh
+  ulist histories over handles: u.new / u.copy / u.add / u.and / u.sub (element or list operand) / u.addh / u.andh / u.subh;
+      in place on a handle: u.append / u.extend / u.iadd / u.insert / u.setitem / u.imul (reply: the contents afterwards)
   dictattr key algebra, stateless: d.sub d.and d.getl d.gett d.get d.add d.relabel d.keys on (DC <cls> (hexkey v)*)
       cls 1 = pyg_base.Dict, 2 = pyg_base.dictattr, 3 = a subclass of dictattr defined here
   dictattr histories over handles (heap model lean/PygModel/DAHeap.lean): h.new / h.copy / h.sub / h.and / h.add / h.addh / h.getl /
@@ -28,7 +29,8 @@ TRUSTED = ['correspondence harness (pv.engine, pv.proto) and the generators / op
 ASSUMPTIONS = ['python == / hash on the generated elements (None, ints, quarter floats, strings, tuples of them; no bools, no NaN) is decidable equality after int->float canonicalisation',
                'python dict semantics: insertion order, d[k]=v overwrites in place or appends, dict(**{...}) and update() are successive assignments',
                'kwargs_support(f)(**params) passes exactly the declared arguments by name and raises TypeError when one is missing; generated functions are lambda args: c + 1*a1 + 2*a2 + ... and never declare an argument named key',
-               'attribute access (getattr/setattr/delattr = item access, AttributeError for KeyError) and in-place writes are modelled on a heap of handles (DAHeap); attribute names are identifiers without a leading underscore that are not attributes of dict; object identity beyond handles (aliasing of values) is not modelled',
+               'attribute access (getattr/setattr/delattr = item access, AttributeError for KeyError) and in-place writes are modelled on a heap of handles (DAHeap); a name that is a public attribute of the class (DAHeap.shadowed, compared with dir(cls) by a law) yields the bound method, a private name (leading underscore) is written to the instance dict which is not modelled (known finding K1); object identity beyond handles (aliasing of values) is not modelled',
+               'Dict + other is tree_update (C15): modelled by DA.addC / PygModel.DictAdd on the C15 model Tree.itemsToTree; with dict values on both sides it is the recursive merge, not {**d, **o}',
                'tuple paths (d - (a, b)), dotted keys and relabelling onto an existing key are outside the statement and not generated; self-referential callables are outside the acyclic statement and generated for correspondence only (call-selfloop)']
 
 ELEMS = [None, 0, 1, 2, 3, 4, 5, 1.0, 2.0, 2.5, 'a', 'b', 'c', '', (1, 2), (1, 'a'), (2.0, 1), ()]
